@@ -71,7 +71,7 @@ Fixpoint round_table (m : list (list T)) (digits : Z) : res (list (list T)) :=
     for(i < NMAX; i++, d1 += 2.0, d2 -= 2.0, e1 *= e2) sum += c[i] * (e1 / d1 + 1.0 / (d2 * e1));
     ans = 0.5641895835 * libphysica::Sign(std::exp(-xp * xp), x) * sum;
   }
->> *)
+>>  The literal 0.5641895835 is written as its reduced fraction 1128379167/2000000000 (the form the translator emits, C17_GenTie.v). *)
 Definition daw_H : T := dec 2 5.
 Definition daw_c (i : Z) : T :=
   nexp Ops (- (#2 * #i + #1) * (#2 * #i + #1) * daw_H * daw_H)%num.
@@ -99,7 +99,7 @@ Definition dawson (x : T) : T :=
     (x * (#1 - dec 2 3 * x2 * (#1 - dec 2 5 * x2 * (#1 - dec 2 7 * x2))))%num
   else
     let es := daw_big (nabs Ops x) in
-    (dec 5641895835 10000000000 * sign2 Ops (fst es) x * snd es)%num.
+    (dec 1128379167 2000000000 * sign2 Ops (fst es) x * snd es)%num.
 
 (** ** double Erfi(double x) = 2.0 / std::sqrt(M_PI) * std::exp(x * x) * Dawson_Integral(x);
     [pi] is the value of M_PI (the real number PI in the R instance, the double M_PI in the float instance). *)
@@ -212,7 +212,7 @@ Definition dawson_st (c : list T) (x : T) : list T * T :=
     let d1 := #(nn + 1) in
     let d2 := (d1 - #2)%num in
     let sum := daw_loop_st c' 6 0 d1 d2 e1 e2 #0 in
-    (c', (dec 5641895835 10000000000 * sign2 Ops (nexp Ops (- xp * xp)%num) x * sum)%num).
+    (c', (dec 1128379167 2000000000 * sign2 Ops (nexp Ops (- xp * xp)%num) x * sum)%num).
 
 (** a history of calls in one process: the table is threaded through, the answers are collected in order *)
 Definition dawson_run (c : list T) (xs : list T) : list T * list T :=
